@@ -607,7 +607,7 @@ def _known_region():
 def tasks(tier):
     kr = _known_region()
     return [
-        Task("dense", strategy=dense_case_st(tier), run=run_symeig, examples={"quick": 1600, "thorough": 100000}),
-        Task("davidson", strategy=davidson_case_st(tier, known_region=kr), run=run_symeig, examples={"quick": 500, "thorough": 30000}),
-        Task("svd", strategy=svd_case_st(tier), run=run_svd, examples={"quick": 1000, "thorough": 70000}),
+        Task("dense", strategy=dense_case_st(tier), run=run_symeig, examples={"quick": 4000, "thorough": 100000}),
+        Task("davidson", strategy=davidson_case_st(tier, known_region=kr), run=run_symeig, examples={"quick": 1500, "thorough": 30000}),
+        Task("svd", strategy=svd_case_st(tier), run=run_svd, examples={"quick": 2500, "thorough": 70000}),
     ]
